@@ -168,7 +168,7 @@ void verif_enum(Enum &e) {
 		{{3, 0, 0, 1, 9, 5, 1, 0, 0, 0, 0, 1, 0, 0}, "split below the root (case 2) | find of the old key"},
 		{{0, 0, 0, 2, 0, 5, 1, 0, 0, 0, 0, 1, 0, 1}, "split at the root (case 2) | find of the new key"},
 	};
-	uint64_t cap = e.tier == "thorough" ? 200000 : 3000;
+	uint64_t cap = e.tier == "thorough" ? 80000 : 3000;
 	for(auto &sh : shapes) {
 		std::vector<uint32_t> choices; bool more = true; uint64_t n = 0;
 		while(more && n < cap) {
